@@ -1,3 +1,33 @@
-From Verif Require Import Model.Compile Spec.PgScope Judge.J02.
-Theorem C05_placeholder : True. Proof. exact I. Qed.
-Print Assumptions C05_placeholder.
+(** Property C05 — Result types track the schema column they come from.
+
+    Full statement: C05_full_statement (decided per case by judge_c05 and the
+    Go-level judge_go_ret).  Proved for all inputs: every hop of the column record
+    from the catalog to a result column copies the data type, nullability,
+    array-ness and owning table unchanged — catalog column -> query column
+    (ConvertColumn), query column -> star result (star_columns) — so a star or a
+    plain reference cannot change a type, whatever DDL history produced the
+    catalog column (the history is C08's business). *)
+From Verif Require Import Model.Compile Spec.PgScope Judge.JQ Judge.J02 Proofs.ColumnsFacts.
+Open Scope string_scope.
+Open Scope list_scope.
+
+Definition C05_full_statement : Prop :=
+  forall e raw src q row,
+    wf_raw raw = true -> c02_class_e e raw = 0%N ->
+    parse_query e raw src false = Ok (Some q) ->
+    pg_describe (env_cat e) (stmt_of raw) = POk row ->
+    types_agree row (q_columns q) = true.
+
+Theorem C05_convert_partial : forall rel c,
+  let q := convert_column rel c in
+  qc_name q = col_name c /\ qc_dt q = data_type (col_type c) /\ qc_nn q = col_notnull c
+  /\ qc_arr q = col_array c /\ qc_table q = Some rel.
+Proof. exact convert_column_faithful. Qed.
+Print Assumptions C05_convert_partial.
+
+Theorem C05_star_partial : forall res tables ref,
+  Forall (fun q => exists t c, In t tables /\ In c (qt_cols t) /\ same_type q c
+                               /\ (res_name res = None -> qc_name q = qc_name c))
+         (star_columns res tables ref).
+Proof. exact star_preserves_types. Qed.
+Print Assumptions C05_star_partial.
